@@ -351,6 +351,77 @@ end
 def prunedFull (pre : Bytes) (path : List Nat) (tab : List PortT) (ts : List STree) (rt : Option Obj) : List Call :=
   tableGate tab path pre rt (fullList pre path rt ts 0)
 
+/-! ### When `port_is_enabled` is defined (side conditions of the pruning clause, decidable) -/
+
+/-- an ordinary path component: no NUL, no '/', not ".." -/
+def compOkB (c : Bytes) : Bool := c.all (fun x => x != 0 && x != 47) && c != DOTDOT
+
+/-- the metadata block is readable (with or without an "enabled by" entry) -/
+def metaOk (md : Option Bytes) : Bool := unguarded md || (guardOf md).isSome
+
+/-- `ep` is one path component and names a row of `tab` (up to the row's ':'); the runtime
+    object defines what that port answers -/
+def toggleOk (tab : List PortT) (obj : Obj) (ep : Bytes) : Bool :=
+  compOkB ep &&
+  match index tab ep with
+  | none => false
+  | some k =>
+    match tab[k]? with
+    | none => false
+    | some ask => lit ask.name == ep && (obj.toggle ep).isSome
+
+/-- the table's own `self:` port, if it has one, is readable and its guard names a row of the table -/
+def selfOk (tab : List PortT) (obj : Obj) : Bool :=
+  match (index tab SELF).bind (tab[·]?) with
+  | none => true
+  | some sp =>
+    metaOk sp.metadata &&
+    match guardOf sp.metadata with
+    | none => true
+    | some ep => toggleOk tab obj ep
+
+/-- a sub-tree name of one path component (`"../"` in `port_is_enabled` removes one component;
+    what the `rRecur*` macros generate) -/
+def flatName (w : WName) : Bool :=
+  w.head.all (· != 47) && w.parts.all (fun p => p.2.all (· != 47)) && w.head != DOTDOT
+
+/-- the guard of the sub-tree port in row `i` of `base`: a row of `base` (asked on `obj`), or —
+    `name/port`, for a name without '#' that is found in its own row — a row of the sub-table
+    (asked on the sub-tree's object `child`) -/
+def subGuardOk (base : List PortT) (obj : Obj) (i : Nat) (w : WName) (md : Option Bytes) (sub : List PortT)
+    (child : Obj) : Bool :=
+  match guardOf md with
+  | none => true
+  | some ep =>
+    if ep.contains 47 then
+      w.parts.isEmpty && index base w.render == some i &&
+      ep.take (w.head.length + 1) == w.head ++ [47] && toggleOk sub child (ep.drop (w.head.length + 1))
+    else toggleOk base obj ep
+
+mutual
+def guardsList (base : List PortT) (obj : Obj) : List STree → Nat → Bool
+  | [], _ => true
+  | t :: r, i => guardsTree base obj i t && guardsList base obj r (i + 1)
+/-- row `i` of the table `base` walked with the object `obj` -/
+def guardsTree (base : List PortT) (obj : Obj) (i : Nat) : STree → Bool
+  | .leaf _ _ => true
+  | .sub w md kids =>
+    flatName w && metaOk md &&
+    (expandParts w.parts).all fun a =>
+      match obj.kid (w.head ++ a ++ [47]) with
+      | none => false
+      | some none => true
+      | some (some c) =>
+        subGuardOk base obj i w md (toPorts kids) c && selfOk (toPorts kids) c && guardsList (toPorts kids) c kids 0
+end
+
+/-- the runtime object defines the child object (or NULL) of every sub-tree port and the answer
+    of every enabling port; every "enabled by" names a port where `port_is_enabled` looks for it -/
+def GuardsOK (ts : List STree) (obj : Obj) : Prop :=
+  selfOk (toPorts ts) obj = true ∧ guardsList (toPorts ts) obj ts 0 = true
+
+instance (ts : List STree) (obj : Obj) : Decidable (GuardsOK ts obj) := by unfold GuardsOK; infer_instance
+
 /-! ### Buffer size -/
 
 def maxLen : List Bytes → Nat
